@@ -405,6 +405,7 @@ type rich struct {
 	Root       string
 	ValRoot    string
 	StakeRoot  string
+	Internals  string // bookkeeping that decides future behaviour: log counter, journal lengths, dirty counters
 }
 
 func (e *env) rich() rich {
@@ -459,6 +460,24 @@ func (e *env) rich() rich {
 	b, _ = json.Marshal(st.GetWithdrawQueue().Records)
 	r.Queue = string(b)
 	r.Root, r.ValRoot, r.StakeRoot = rootsOfCopy(st)
+	var ds []string
+	for a, n := range in.Dirties {
+		ds = append(ds, fmt.Sprintf("%x:%d", a, n))
+	}
+	for a, n := range in.ValDirties {
+		ds = append(ds, fmt.Sprintf("v%x:%d", a, n))
+	}
+	for a := range in.Pending {
+		ds = append(ds, fmt.Sprintf("p%x", a))
+	}
+	for a := range in.ObjDirty {
+		ds = append(ds, fmt.Sprintf("d%x", a))
+	}
+	for a := range in.ValObjDirty {
+		ds = append(ds, fmt.Sprintf("vd%x", a))
+	}
+	sort.Strings(ds)
+	r.Internals = fmt.Sprintf("logSize=%d journal=%d valJournal=%d %s", in.LogSize, in.JournalLen, in.ValJournalLen, strings.Join(ds, ","))
 	return r
 }
 
@@ -518,6 +537,9 @@ func (a rich) diff(b rich) []string {
 	}
 	if a.StakeRoot != b.StakeRoot {
 		d = append(d, "staking root: "+a.StakeRoot+"  ->  "+b.StakeRoot)
+	}
+	if a.Internals != b.Internals {
+		d = append(d, "bookkeeping: "+a.Internals+"  ->  "+b.Internals)
 	}
 	return d
 }
@@ -601,12 +623,17 @@ func (o *oracle) step(e *env, h []Op, i int, op Op, ret int64, panicked bool, ms
 		now := e.rich()
 		d := rec.obs.diff(now)
 		var rest []string
+		used := map[string][]string{}
 		for _, x := range d {
 			switch {
+			case rec.ripemd && (strings.HasPrefix(x, "state root") || strings.HasPrefix(x, "bookkeeping")):
+				used["ripemd"] = append(used["ripemd"], x)
 			case rec.rmval && (strings.HasPrefix(x, "validator ") || strings.Contains(x, "Copy/IntermediateRoot panics")):
+				used["rmval"] = append(used["rmval"], x)
 			case rec.rmwd && (strings.HasPrefix(x, "withdraw queue") || strings.HasPrefix(x, "validator root")):
+				used["rmwd"] = append(used["rmwd"], x)
 			case rec.dlg && (strings.HasPrefix(x, "validator ") || strings.Contains(x, "Copy/IntermediateRoot panics")):
-			case rec.ripemd && strings.HasPrefix(x, "state root"):
+				used["dlg"] = append(used["dlg"], x)
 			default:
 				rest = append(rest, x)
 			}
@@ -615,13 +642,13 @@ func (o *oracle) step(e *env, h []Op, i int, op Op, ret int64, panicked bool, ms
 		case len(rest) > 0:
 			o.hit(keyNotRestored, strings.Join(rest, " | "), h, i)
 			return "revert_valid_NOT_RESTORED"
-		case len(d) > 0 && rec.rmval:
+		case len(used["rmval"]) > 0:
 			o.hit(keyRemoveValidator, strings.Join(d, " | "), h, i)
 			return "revert_valid_known_remove_validator"
-		case len(d) > 0 && rec.rmwd:
+		case len(used["rmwd"]) > 0:
 			o.hit(keyWithdrawOrder, strings.Join(d, " | "), h, i)
 			return "revert_valid_known_withdraw_order"
-		case len(d) > 0 && rec.dlg:
+		case len(used["dlg"]) > 0:
 			o.hit(keyDelegationAlias, strings.Join(d, " | "), h, i)
 			return "revert_valid_known_delegation_alias"
 		case len(d) > 0:
@@ -1083,9 +1110,36 @@ func opCoq(o Op) string {
 	panic("opCoq " + o.K)
 }
 
+// treeFixed reports whether the tree under test carries the repair of the two
+// modelled validator-journal reverts (fixes/C09_validator_journal_reverts.diff):
+// a revert across RemoveValidator gives the validator back, and a revert across
+// RemoveWithdrawRecords gives the queue back in its old order.
+func treeFixed() (rmval, wdorder bool) {
+	e := newEnv()
+	e.exec(Op{K: "createval", A: 1, B: 1, C: 1, V: "10", W: "1000"})
+	e.exec(Op{K: "finalise", Del: true})
+	id, _, _ := e.exec(Op{K: "snapshot"})
+	e.exec(Op{K: "rmval", A: 1})
+	e.exec(Op{K: "revert", A: uint64(id)})
+	rmval = e.st.GetValidatorByMainAddr(valAddr(1)) != nil
+	e = newEnv()
+	for i := uint64(0); i < 3; i++ {
+		e.exec(Op{K: "addwd", A: i + 1, B: i, P: i})
+	}
+	e.exec(Op{K: "finalise", Del: true})
+	id, _, _ = e.exec(Op{K: "snapshot"})
+	e.exec(Op{K: "rmwd", Idx: []int{0}})
+	e.exec(Op{K: "revert", A: uint64(id)})
+	q := e.st.GetWithdrawQueue().Records
+	wdorder = len(q) == 3 && q[0].Nonce == 0 && q[1].Nonce == 1 && q[2].Nonce == 2
+	return
+}
+
+var fixedFlag bool
+
 func caseCoq(ops []Op, trace [][]string) string {
 	var sb strings.Builder
-	sb.WriteString("mkCase [")
+	sb.WriteString("mkCase " + bc(fixedFlag) + " [")
 	for i, o := range ops {
 		if i > 0 {
 			sb.WriteString("; ")
@@ -1155,6 +1209,13 @@ func opsKey(ops []Op) string {
 func doGen(seed uint64, n int, outDir, corpusDir string) {
 	r := vf.NewRng(seed)
 	res := vf.NewResult("C09", seed)
+	fa, fb := treeFixed()
+	fixedFlag = fa
+	res.Extra["tree_has_remove_validator_repair"] = fa
+	res.Extra["tree_has_withdraw_order_repair"] = fb
+	if fa != fb {
+		res.Count("tree_partially_repaired")
+	}
 	var sb strings.Builder
 	sb.WriteString("From VF.C09 Require Import Model.\nLocal Open Scope N_scope.\nDefinition cases : list case := [\n")
 	distinct := map[string]bool{}
@@ -1299,7 +1360,8 @@ func main() {
 		for _, o := range executed {
 			xs = append(xs, opCoq(o))
 		}
-		fmt.Printf("From VF.C09 Require Import Model.\nLocal Open Scope N_scope.\nEval vm_compute in trace_full [%s] init.\n", strings.Join(xs, "; "))
+		fa, _ := treeFixed()
+		fmt.Printf("From VF.C09 Require Import Model.\nLocal Open Scope N_scope.\nEval vm_compute in trace_full %s [%s] init.\n", bc(fa), strings.Join(xs, "; "))
 	default:
 		fmt.Println("usage: c09 gen|replay")
 		os.Exit(2)
